@@ -25,6 +25,7 @@ import common
 from common import err_kind
 from props import c03_flavours as FL
 from props import c03_calls as CL
+from props import c03_raise as RX
 
 ID = "C03"
 RULE = ("random histories (length 3..14 quick, ..40 thorough) over a pool of finite / periodic Streams, "
@@ -564,6 +565,8 @@ class Runner(object):
 
 
 def impl(case):
+    if case.get("entry") == "xhist":         # finite sources only: every request returns
+        return RX.run(case)
     # a request that does not terminate (e.g. filter rejecting every item of an endless stream)
     # is cut by a CPU-time alarm; a first alarm is confirmed by a second run with a longer
     # budget, so that a stalled machine can never turn into a reported "hang"
@@ -1379,14 +1382,16 @@ def generate(rng, tier, scale=1):
     cases = []
     if tier == "quick":
         nrand, maxlen, depth, nhist, nlong = 4000 * scale, 14, 3, 4500 * scale, 10 * scale
-        ncalls = 3000 * scale
+        ncalls, nx = 3000 * scale, 2500 * scale
     else:
         nrand, maxlen, depth, nhist, nlong = 40000 * scale, 40, 4, 40000 * scale, 40 * scale
-        ncalls = 30000 * scale
+        ncalls, nx = 30000 * scale, 30000 * scale
     if scale == 1:
         cases.extend(_exhaustive(depth))
         cases.extend(_owner_cases())
         cases.extend(_tie_cases())
+    for k in range(nx):
+        cases.append(RX.history(rng, rng.randint(3, 12), copies=(k % 2 == 1)))
     for k in range(ncalls):
         cases.append(_calls(rng, rng.randint(3, maxlen), (k % 5) >= 3, tagged=(k % 4 == 3)))
     for k in range(nrand):
@@ -1460,6 +1465,18 @@ def compare(case, io, drv):
     steps = io.get("steps")
     if steps is None:
         return [("model", "impl harness failed: %r" % (io,)), ("spec", "impl harness failed")]
+    if case.get("entry") == "xhist":
+        # the event-list specification covers histories without copies (tee hands an exception to one copy
+        # only); with copies the heap model alone is compared
+        cut = next((k for k, op in enumerate(case["ops"]) if op["op"] in ("copy", "peek")), None)
+        for kind in ("model", "spec"):
+            a, b = (steps, drv[kind]) if (cut is None or kind == "model") else (steps[:cut], drv[kind][:cut])
+            d = _first_diff(a, b)
+            if d is not None:
+                k, x, y = d
+                out.append((kind, "step %d %s: impl=%s %s=%s" % (k, case["ops"][k] if k < len(case["ops"]) else None,
+                                                                 _abbr(x), kind, _abbr(y))))
+        return out
     cut = _cut(case, steps, drv)
     for kind in ("model", "spec"):
         a, b = (steps, drv[kind]) if cut is None else (steps[:cut], drv[kind][:cut])
@@ -1498,6 +1515,13 @@ def _summ(x):
 
 def classify(case, io, drv):
     steps = io.get("steps") or []
+    if case.get("entry") == "xhist":
+        d = _first_diff(steps, drv["model"])
+        if d is None:
+            return "raising-elements:spec-only"
+        k, x, y = d
+        return "raising-elements:%s:impl:%s:expected:%s" % (case["ops"][k]["op"] if k < len(case["ops"]) else "?",
+                                                            _summ(x), _summ(y))
     cut = _cut(case, steps, drv)
     if cut is not None:
         steps, drv = steps[:cut], dict(drv, model=drv["model"][:cut], spec=drv["spec"][:cut])
@@ -1531,6 +1555,10 @@ def _bucket(n):
 
 
 def tally(eng, case, io):
+    if case.get("entry") == "xhist":
+        eng.count("entry", "xhist" + (":with copies" if any(op["op"] in ("copy", "peek") for op in case["ops"]) else ""))
+        RX.tally(eng, case, io)
+        return
     ops = case["ops"]
     steps = io.get("steps", [])
     hist = case.get("entry") in ("hist", "calls")
@@ -1699,7 +1727,27 @@ def shrink(case):
         yield c
 
 
+def _shrink_x(case):
+    ops = case["ops"]
+    n = len(ops)
+    for k in sorted({n // 2, n * 3 // 4, n - 2, n - 1}):
+        if 0 < k < n:
+            yield dict(case, ops=ops[:k])
+    creates = [op["op"] in ("new", "copy", "attr") for op in ops]
+    for k in range(n - 1, -1, -1):
+        if not creates[k]:
+            yield dict(case, ops=ops[:k] + ops[k + 1:])
+    for k, op in enumerate(ops):
+        if isinstance(op.get("es"), list) and op["es"]:
+            yield dict(case, ops=ops[:k] + [dict(op, es=op["es"][:-1])] + ops[k + 1:])
+            yield dict(case, ops=ops[:k] + [dict(op, es=op["es"][1:])] + ops[k + 1:])
+
+
 def _shrink(case):
+    if case.get("entry") == "xhist":
+        for c in _shrink_x(case):
+            yield c
+        return
     ops = case["ops"]
     n = len(ops)
     seen = set()
@@ -1798,6 +1846,11 @@ def _shrink(case):
 
 def neighbours(case):
     ops = case["ops"]
+    if case.get("entry") == "xhist":
+        for k in range(len(ops)):
+            if ops[k]["op"] not in ("new", "copy", "attr"):
+                yield dict(case, ops=ops[:k] + ops[k + 1:])
+        return
     for k, op in enumerate(ops):
         c = op.get("n") if not op.get("call") else None
         if isinstance(c, dict) and c["t"] == "int":
